@@ -35,15 +35,28 @@ fn map_spec(pre: &RefMmu, size: Size, page: u64, frame: u64, flags: u64, pf: u64
     let full = Path::of(page, size.path_len());
     let allocs: Vec<Option<u64>> = log.iter().filter_map(|e| if let AllocEv::Alloc(_, r) = e { Some(*r) } else { None }).collect();
     let mut k = 0usize;
+    // existing parent entries on the path: a successful call adds the requested parent flags
+    // (documented); a failing call MAY have added them ("at most the requested parent flags may be
+    // added to existing parent-table entries") - the lower bound then stays what it was
+    let mut raised: Vec<(Path, u64)> = Vec::new();
+    fn failed(s: &mut Spec, raised: &[(Path, u64)]) {
+        for (p, lo) in raised {
+            if let Some(t) = s.after.tables.get_mut(p) {
+                t.lo = *lo;
+            }
+        }
+    }
     for n in 1..full.len {
         let p = full.prefix(n);
         s.path.push(p);
         if s.after.leaves.contains_key(&p) {
             s.accept = vec![Code::ParentHuge];
             s.exp_allocs = k as u32;
+            failed(&mut s, &raised);
             return Ok(s);
         }
         if let Some(t) = s.after.tables.get_mut(&p) {
+            raised.push((p, t.lo));
             t.lo |= pf;
             t.hi |= pf;
         } else {
@@ -53,6 +66,7 @@ fn map_spec(pre: &RefMmu, size: Size, page: u64, frame: u64, flags: u64, pf: u64
                     k += 1;
                     s.accept = vec![Code::AllocFailed];
                     s.exp_allocs = k as u32;
+                    failed(&mut s, &raised);
                     return Ok(s);
                 }
                 Some(Some(f)) => {
@@ -67,8 +81,10 @@ fn map_spec(pre: &RefMmu, size: Size, page: u64, frame: u64, flags: u64, pf: u64
     if s.after.leaves.contains_key(&full) {
         s.accept = vec![Code::AlreadyMapped];
         s.exp_frame = Some(frame);
+        failed(&mut s, &raised);
     } else if s.after.tables.contains_key(&full) {
         s.any_err = true;
+        failed(&mut s, &raised);
     } else {
         s.accept = vec![Code::Ok];
         s.exp_token = Some(page);
